@@ -161,6 +161,9 @@ func ConcCorpus(thorough bool) []*ConcScenario {
 		{Name: "two-adds-one-collection", Reqs: []*Scenario{
 			inReq("add1", inbox(Alice), Doc("Add", RAct, "actor", Carol, "object", RNote, "target", Col1)),
 			inReq("add2", inbox(Bob), Doc("Add", RAct2, "actor", Dave, "object", RNote2, "target", L{OCol1, Col1}))}},
+		{Name: "two-adds-crossed-targets", Reqs: []*Scenario{
+			inReq("add1", inbox(Alice), Doc("Add", RAct, "actor", Carol, "object", RNote, "target", L{Col1, OCol1})),
+			inReq("add2", inbox(Bob), Doc("Add", RAct2, "actor", Dave, "object", RNote2, "target", L{OCol1, Col1}))}},
 		{Name: "two-notes-one-outbox", Reqs: []*Scenario{
 			outReq("note1", outbox(Alice), Doc("Note", "", "content", "one", "to", Carol)),
 			outReq("note2", outbox(Alice), Doc("Note", "", "content", "two", "to", Dave))}},
